@@ -418,7 +418,44 @@ def eng_image(run, rng, case) -> Tuple[Any, bool]:
     case['value'] = {'version': version, 'as_dict': as_dict, 'files': [fn for fn, _ in scenes],
                      'scenes': [G.snap(s) for _, s in scenes]}
     image_laws(run, scenes, version, as_dict)
+    # history: two images written separately, parsed (entries keep their raw bytes and EACH image's own string pool),
+    # merged into one mapping and saved as one image
+    from srctools.choreo import checksum_filename
+    have = {checksum_filename(fn) for fn, _ in scenes}
+    scenes2 = [(fn, sc) for fn, sc in gen_image(rng)[0] if checksum_filename(fn) not in have]
+    if scenes2:
+        image_merge_law(run, scenes, scenes2, version, touch_first=rng.random() < 0.5)
     return case['value'], any(G.scene_nontrivial(s) for _, s in scenes)
+
+
+def image_merge_law(run, scenes_a, scenes_b, version: int, touch_first: bool) -> None:
+    from srctools import choreo
+
+    def save(ents) -> bytes:
+        buf = io.BytesIO()
+        choreo.save_scenes_image_sync(buf, ents, version=version)
+        return buf.getvalue()
+    ents_a = [choreo.Entry.from_scene(fn, sc) for fn, sc in scenes_a]
+    ents_b = [choreo.Entry.from_scene(fn, sc) for fn, sc in scenes_b]
+    want = snap_image({e.checksum: e for e in ents_a + ents_b}, version)
+    wa = _call('write', lambda: save(ents_a))
+    wb = _call('write', lambda: save(ents_b))
+    ya = _call('read', lambda: choreo.parse_scenes_image(io.BytesIO(wa)), wa)
+    yb = _call('read', lambda: choreo.parse_scenes_image(io.BytesIO(wb)), wb)
+    if touch_first:
+        for e in list(ya.values())[:1]:
+            e.data  # one entry is decoded before the merge, the others stay raw
+    merged = dict(ya)
+    merged.update(yb)
+    wm = _call('rewrite', lambda: save(merged), wa)
+    table = image_table(wm)
+    if table != sorted(table) or sorted(table) != sorted(int(e.checksum) for e in merged.values()):
+        raise Failure('sorted', 'entry table of an image merged from two parsed images is not the sorted CRCs of its entries', {'table': table})
+    z = _call('read', lambda: choreo.parse_scenes_image(io.BytesIO(wm)), wm)
+    d = G.first_diff(want, _call('read', lambda: snap_image(z, version), wm))
+    if d:
+        raise Failure('compare', f'image merged from two parsed images: entry differs at {d["path"]}: want {d["want"]!r} got {d["got"]!r}', {'diff': d})
+    run.count('image_merges')
 
 
 def image_laws(run, scenes, version: int, as_dict: bool) -> None:
@@ -886,7 +923,7 @@ def main(run, shard=(0, 1)) -> None:
     probe.report(run)
     probe.check_reached(run)
     run.require(*('cases_' + e for e in ENGINES))
-    run.require('sample_documents', 'image_summaries_checked', 'sndscript_ranges', 'smd_multilink_meshes', 'image_entries')
+    run.require('sample_documents', 'image_summaries_checked', 'sndscript_ranges', 'smd_multilink_meshes', 'image_entries', 'image_merges')
     run.extra['restrictions'] = 'see rule'
 
 
